@@ -3,7 +3,7 @@
    numeric when int.TryParse accepts them).  Statements only; proofs in
    Semver/NuGetSpec_proofs.v. *)
 From DepsDev Require Import Lib.Base Semver.Version Semver.Compare Semver.Parse
-  Spec.SemverSpec Spec.NuGetSpec Semver.SemverSpec_proofs Semver.NuGetSpec_proofs.
+  Spec.SemverSpec Spec.NuGetSpec Semver.SemverSpec_proofs Semver.NuGetSpec_proofs Semver.NuGetParse_proofs.
 
 (* On every pair of parsed structures that are NuGet versions (three or four numbers, release
    labels of the SemVer grammar) the library's comparison IS NuGet's.  No range hypothesis:
@@ -35,3 +35,19 @@ Example C02_nuget_example :
   chk [49;46;48;46;48;45;50;49;52;55;52;56;51;54;52;56]%N [49;46;48;46;48;45;51]%N 1%Z = true /\
   chk [49;46;48;46;48;45;57;57;57;57;57;57;57;57;57;57]%N [49;46;48;46;48;45;49;48;48;48;48;48;48;48;48;48;48]%N 1%Z = true.
 Proof. vm_compute. repeat split. Qed.
+
+(* ---------------------------------------------------------------- the string level *)
+(* Every string of NuGet's grammar (Spec/NuGetSpec.v parse_nuget: one to four Int32 components
+   with leading zeros allowed, SemVer release labels, metadata) is accepted by the model parser
+   and the parsed structure abstracts to the spec's value.  All byte strings, no length bound. *)
+Theorem C02_nuget_parses : forall s nv0, parse_nuget s = Some nv0 ->
+  exists v, parse SNuGet s = Ok v /\ abs_nuget v = Some nv0.
+Proof. exact nuget_parses. Qed.
+Print Assumptions C02_nuget_parses.
+
+(* Hence parsing and comparing two NuGet strings in the library IS NuGet's comparison of them. *)
+Theorem C02_nuget_strings : forall a b na nb, parse_nuget a = Some na -> parse_nuget b = Some nb ->
+  exists va vb, parse SNuGet a = Ok va /\ parse SNuGet b = Ok vb /\
+                generic_compare SNuGet va vb = nuget_precedence na nb.
+Proof. exact nuget_strings. Qed.
+Print Assumptions C02_nuget_strings.
